@@ -4460,6 +4460,9 @@ class Frame(ContainerOperand):
 
         for idx, group in enumerate(groups):
             selection = locations == idx
+            if group_to_tuple:
+                # a multi-depth group label is a row of a 2D array: deliver it as a (hashable) tuple, as Series does
+                group = tuple(group)
 
             if axis == 0:
                 # axis 0 is a row iter, so need to slice index, keep columns
